@@ -172,13 +172,19 @@ func (c *Check) handlerDiscipline(rule string) {
 			if !ok {
 				return
 			}
-			t := p.staticLocalCallee(d)
-			if t == nil {
+			if !instrDominates(d, est[0].(ssa.Instruction)) {
 				return
 			}
-			for _, cl := range p.callsIn(t, descIs("builtin:close")) {
-				if chanFieldName(cl.Common().Args[0]) == "closeCh" && instrDominates(d, est[0].(ssa.Instruction)) {
-					okW = true
+			// defer close(ch) directly, or a deferred function that closes it;
+			// ch is a channel stored in the writer's closeCh field
+			if p.calleeDesc(d) == "builtin:close" && len(d.Call.Args) == 1 && p.chanIsField(d.Call.Args[0], "updateMessageWriter", "closeCh") {
+				okW = true
+			}
+			if t := p.staticLocalCallee(d); t != nil {
+				for _, cl := range p.callsIn(t, descIs("builtin:close")) {
+					if p.chanIsField(cl.Common().Args[0], "updateMessageWriter", "closeCh") {
+						okW = true
+					}
 				}
 			}
 		})
